@@ -1,2 +1,3 @@
 import Dawgs.Props.C16
 import Dawgs.Props.C18
+import Dawgs.Props.C19
